@@ -282,7 +282,9 @@ func factsAt(b *ssa.BasicBlock, depth int) []Fact {
 
 // expandBoolPhi: a boolean phi produced by a short-circuit expression stored in a variable.
 // phi == true  and all other edges are the constant false  => the remaining edge's value is true and the
-//                                                            facts of its predecessor block held (a && b);
+//
+//	facts of its predecessor block held (a && b);
+//
 // phi == false and all other edges are the constant true   => the remaining edge's value is false (a || b).
 func expandBoolPhi(cond ssa.Value, truth bool, ifi *ssa.If, depth int) []Fact {
 	phi, ok := cond.(*ssa.Phi)
